@@ -1,1 +1,30 @@
-(* C04 — theorems: see stream model (work in progress) *)
+(* C04 — compressed output is a pure function of data and parameters: the part that is logic.
+   (1) the blocks handed to the encoding tasks, with their ids, depend on the data only - not on
+       the partition into Write calls, the job count or the size hint (Writer model);
+   (2) the tasks of a batch append to the shared stream one at a time, in id order, for every
+       number of tasks and every interleaving (hand-off protocol model, encode side);
+   so the sequence of (id, block) pairs reaching the shared stream is schedule-independent.
+   Assumed (and compared byte for byte by the harness): encoding one block is a function of the
+   block and the parameters. *)
+From Coq Require Import List NArith ZArith.
+From KV Require Import Model.Writer Proofs.WriterProofs Model.Handoff Proofs.HandoffProofs.
+Import ListNotations.
+
+Theorem C04_blocks_depend_on_data_only : forall B jobs1 jobs2 hint1 hint2 ws1 ws2,
+  (0 < B)%N -> (0 < jobs1)%N -> (0 < jobs2)%N -> concat ws1 = concat ws2 ->
+  exists a1 a2 b1 b2,
+    do_writes B jobs1 hint1 (init_w jobs1) ws1 = (a1, true) /\ w_close B jobs1 hint1 (fun _ => false) a1 false false = (a2, false) /\
+    do_writes B jobs2 hint2 (init_w jobs2) ws2 = (b1, true) /\ w_close B jobs2 hint2 (fun _ => false) b1 false false = (b2, false) /\
+    map snd (w_out a2) = map snd (w_out b2).
+Proof. intros B j1 j2 h1 h2 ws1 ws2 HB. exact (writer_canonical B HB j1 j2 h1 h2 ws1 ws2). Qed.
+Print Assumptions C04_blocks_depend_on_data_only.
+
+Theorem C04_appends_in_id_order_for_every_schedule : forall first n s, (0 <= first)%Z -> reachable Enc first n s ->
+  (exists k, log s = map (id_of first) (seq 0 k)) /\
+  (all_done s = true -> cnt s <> (-1)%Z -> log s = map (id_of first) (seq 0 (length (ts s)))).
+Proof.
+  intros first n s H R. pose proof (reachable_Inv _ _ _ _ H R) as I. split.
+  - exact (ordered Enc first s I).
+  - intros D C. exact (proj1 (complete_run_sequential Enc first H s I D C)).
+Qed.
+Print Assumptions C04_appends_in_id_order_for_every_schedule.
